@@ -11,12 +11,12 @@ open Atree.Health
 
 variable {r : Nat} {β : Type}
 
-theorem runS_cache (c : Codec (MSSlab r) β) (cfg : MCfg) :
+theorem runS_cache_h (c : Codec (MSSlab r) β) (cfg : MCfg) :
     ∀ (ops : List MOp) (x : (OMap r × Ctx) × St (MSSlab r) β), (runS c cfg x ops).2.cache = x.2.cache
   | [], _ => rfl
   | op :: ops, x => by
     show (runS c cfg (stepS c cfg x op) ops).2.cache = x.2.cache
-    rw [runS_cache c cfg ops]
+    rw [runS_cache_h c cfg ops]
     exact (applyEffs_frame c x.2 _ _).1
 
 /-- From any state of a run (`MGoodF`, `RefsUniqueM`) whose storage has all slabs loaded and holds
@@ -77,7 +77,7 @@ theorem map_history_storage_check (c : Codec (MSSlab r) β) (hc : RoundTrip c) (
     exact (applyEffs_frame c St.init _ _).2
   have hcache : x.2.cache = [] := by
     show (runS c cfg (newS c cfg.addr ty seedOf) ops).2.cache = []
-    rw [runS_cache c cfg ops]
+    rw [runS_cache_h c cfg ops]
     exact (applyEffs_frame c St.init _ _).1
   have hall : AllLoaded x.2 := by
     intro id hid
